@@ -24,9 +24,9 @@ configuration-dependent exception of the current tree):
   layout and are covered by the harness' oracle only.
 * `sm3`: `sm3Init`, `sm3Step`.
 * Tearfree: validation order of `tearfree(...)` (`tfValidate`, numeric options as `Rat`),
-  `tfInit` (grafting mask, reshaper merge/pad, Shampoo blocks, Sketchy axis states, momentum chain,
-  learning-rate state) and `tfStep`. `memory_alloc` of Sketchy and the internals of optax's
-  adafactor state are outside the model (the latter is an opaque node).
+  `tfInit` (grafting mask, reshaper merge/pad, Shampoo blocks, Sketchy axis states incl. per-axis ranks
+  from `memory_alloc`, momentum chain, learning-rate state) and `tfStep`. The internals of optax's
+  adafactor state are outside the model (an opaque node).
 
 Parameter dtype. The model (and every theorem about it) is the float32 instance: all parameter-shaped
 leaves are `float32`. For parameters of another dtype the real optimizers do NOT keep the layout
@@ -636,6 +636,9 @@ structure TFSketchy where
   decay : Rat
   addGgt : Bool
   ekfac : Bool
+  /-- `memory_alloc`: per parameter (flatten order) the per-axis ranks, as the nested dict written by
+  `reallocation.create_redist_dict` holds them; `none` = no dict (or an empty one): global `rank` -/
+  alloc : Option (List (List Nat))
   deriving Repr
 
 structure TFCfg where
@@ -659,44 +662,40 @@ structure TFCfg where
 
 def rejC : Except Err Unit := .error (.reject .construct .valueError)
 
-/-- all option checks of `tearfree(...)`, in the order the constructor runs them:
-`second_order.apply` (`_reshaper_options`, `reshaper.merge`, `_update_stats_and_precondition` →
-`shampoo._validate` / `sketchy._validate`), `grafting._validate`, `momentum._validate` -/
-def tfValidate (c : TFCfg) : Except Err Unit := do
-  -- _reshaper_options
-  let bs : Int ← if c.sketchy then pure 0 else
-    (match c.sh with
-     | some s => pure s.blockSize
-     | none => .error (.reject .construct .valueError))
+def inUnit (q : Rat) : Bool := decide (0 ≤ q) && decide (q ≤ 1)
+
+/-- some option check of `tearfree(...)` fails. The constructor runs them in this order —
+`second_order.apply` (`_reshaper_options`: options object present; `reshaper.merge`: merge_dims, block
+size; `_update_stats_and_precondition` → `shampoo._validate` / `sketchy._validate`), then
+`grafting._validate`, then `momentum._validate` — and every one raises `ValueError` at construction, so
+outcome kind, phase and class do not depend on which fires first. -/
+def tfInvalid (c : TFCfg) : Bool :=
+  let bs : Int := if c.sketchy then 0 else match c.sh with
+    | some s => s.blockSize
+    | none => 0
+  -- _reshaper_options / _update_stats_and_precondition: the options object must be present
+  (if c.sketchy then c.sk.isNone else c.sh.isNone) ||
   -- reshaper.merge
-  if c.mergeDims < 2 then rejC
-  if bs < 2 ∧ bs ≠ 0 then rejC
-  -- _update_stats_and_precondition
-  if c.sketchy then
-    (match c.sk with
-     | none => rejC
-     | some k => do
-        if k.updateFreq ≤ 0 then rejC
-        if ¬ (0 ≤ k.decay ∧ k.decay ≤ 1) then rejC
-        if k.rank ≤ 0 then rejC)
-  else
-    (match c.sh with
-     | none => rejC
-     | some s => do
-        if s.blockSize ≤ 1 then rejC
-        if s.pf ≤ 0 then rejC
-        if s.sf ≤ 0 then rejC
-        if ¬ (0 ≤ s.decay ∧ s.decay ≤ 1) then rejC)
+  decide (c.mergeDims < 2) || (decide (bs < 2) && decide (bs ≠ 0)) ||
+  -- sketchy._validate / shampoo._validate
+  (if c.sketchy then
+     (match c.sk with
+      | none => true
+      | some k => decide (k.updateFreq ≤ 0) || !inUnit k.decay || decide (k.rank ≤ 0))
+   else
+     (match c.sh with
+      | none => true
+      | some s => decide (s.blockSize ≤ 1) || decide (s.pf ≤ 0) || decide (s.sf ≤ 0) || !inUnit s.decay)) ||
   -- grafting._validate
-  if (c.graft = .rmsprop ∨ c.graft = .adafactor) ∧ c.graftEps < 0 then rejC
-  if c.graft = .rmsprop ∧ ¬ (0 < c.graftDecay ∧ c.graftDecay ≤ 1) then rejC
-  if c.graft = .adafactor then do
-    if ¬ (0 < c.graftDecay ∧ c.graftDecay < 1) then rejC
-    if ¬ (0 < c.minDimFactor) then rejC
-    if c.clipThreshold < 1 then rejC
+  ((c.graft == .rmsprop || c.graft == .adafactor) && decide (c.graftEps < 0)) ||
+  (c.graft == .rmsprop && !(decide (0 < c.graftDecay) && decide (c.graftDecay ≤ 1))) ||
+  (c.graft == .adafactor &&
+     (!(decide (0 < c.graftDecay) && decide (c.graftDecay < 1)) || !decide (0 < c.minDimFactor) ||
+      decide (c.clipThreshold < 1))) ||
   -- momentum._validate
-  if ¬ (0 ≤ c.momDecay ∧ c.momDecay ≤ 1) then rejC
-  if ¬ (c.wd ≥ 0) then rejC
+  !inUnit c.momDecay || !decide (c.wd ≥ 0)
+
+def tfValidate (c : TFCfg) : Except Err Unit := if tfInvalid c then rejC else .ok ()
 
 /-- `_mask_skipped`: parameter is left to the grafting update only -/
 def tfMasked (c : TFCfg) (shape : List Nat) : Bool :=
@@ -719,8 +718,9 @@ def tfBlockSize (c : TFCfg) : Nat :=
 def tfShape (c : TFCfg) (shape : List Nat) : List Nat :=
   (deriveShapes c.mergeDims.toNat (tfBlockSize c) shape).padded
 
-def sketchAxis (k : TFSketchy) (shape : List Nat) (d : Nat) : List (Option Leaf) :=
-  let r := min d k.rank.toNat
+/-- one `_AxisState` of a dimension `d` with sketch rank `rk` (`options.rank` or the `memory_alloc` entry) -/
+def sketchAxis (k : TFSketchy) (shape : List Nat) (d rk : Nat) : List (Option Leaf) :=
+  let r := min d rk
   let m := min d (r + prod shape / d)
   [some (f32Leaf [d, r]), some (f32Leaf [r]), some (f32Leaf [r]), some (f32Leaf []), some (f32Leaf []),
    (if k.addGgt then some (f32Leaf [d, d]) else none),
@@ -728,15 +728,35 @@ def sketchAxis (k : TFSketchy) (shape : List Nat) (d : Nat) : List (Option Leaf)
    (if k.ekfac then some (f32Leaf [m]) else none),
    (if k.ekfac then some (f32Leaf []) else none)]
 
+/-- per-axis ranks of a parameter: its `memory_alloc` row (first `ndim` entries) or the global rank -/
+def axisRanks (k : TFSketchy) (s : List Nat) (row : Option (List Nat)) : List Nat :=
+  match row with
+  | some r => r
+  | none => s.map fun _ => k.rank.toNat
+
+/-- a parameter as the second-order transform sees it: original shape and its `memory_alloc` row -/
+abbrev TFInput := List Nat × Option (List Nat)
+
+def zipRows : List (List Nat) → List (List Nat) → List TFInput
+  | [], _ => []
+  | s :: ss, [] => (s, none) :: zipRows ss []
+  | s :: ss, r :: rs => (s, some r) :: zipRows ss rs
+
+def tfInputs (c : TFCfg) (ps : List (List Nat)) : List TFInput :=
+  match c.sk.bind (·.alloc) with
+  | some rows => zipRows ps rows
+  | none => ps.map fun s => (s, none)
+
 /-- second-order state of one parameter (`shampoo._init.make_blocks` / `sketchy._init._tensor_state`
 on the merged and padded shape); `.error` = the explanatory ValueError of `make_blocks` -/
-def tfParam (c : TFCfg) (shape : List Nat) : Except Err TFParam :=
+def tfParam (c : TFCfg) (x : TFInput) : Except Err TFParam :=
+  let shape := x.1
   if tfMasked c shape then pure .masked
   else
     let s := tfShape c shape
     if c.sketchy then
       match c.sk with
-      | some k => pure (.axes (s.map (sketchAxis k s)))
+      | some k => pure (.axes (List.zipWith (sketchAxis k s) s (axisRanks k s x.2)))
       | none => .error (.internal .init "no sketchy options")
     else
       let b := tfBlockSize c
@@ -750,26 +770,38 @@ def tfParam (c : TFCfg) (shape : List Nat) : Except Err TFParam :=
 
 structure TFLayout where
   params : List TFParam
-  shapes : List (List Nat)
+  inputs : List TFInput
   deriving DecidableEq, Repr
 
 def tfInit (c : TFCfg) (ps : List (List Nat)) : Except Err TFLayout := do
   tfValidate c
-  let l ← mapE (tfParam c) ps
-  pure ⟨l, ps⟩
+  let l ← mapE (tfParam c) (tfInputs c ps)
+  pure ⟨l, tfInputs c ps⟩
 
 /-- one update of the second-order states: the statistics / roots / sketches computed from the
 blockified gradient must have the types of the stored ones (`lax.cond(should_update, new, old)`) -/
-def tfStepParam (c : TFCfg) (x : List Nat × TFParam) : Except Err TFParam :=
+def tfStepParam (c : TFCfg) (x : TFInput × TFParam) : Except Err TFParam :=
   match tfParam c x.1 with
   | .error _ => .error (.internal .update "update-time shape error")
   | .ok n => if n = x.2 then pure n else .error (.internal .update "cond branch types")
 
 def tfStep (c : TFCfg) (L : TFLayout) : Except Err TFLayout :=
-  if L.params.length ≠ L.shapes.length then .error (.internal .update "treedef")
+  if L.params.length ≠ L.inputs.length then .error (.internal .update "treedef")
   else do
-    let l ← mapE (tfStepParam c) (L.shapes.zip L.params)
+    let l ← mapE (tfStepParam c) (L.inputs.zip L.params)
     pure { L with params := l }
+
+/-- `k` updates -/
+def tfSteps (c : TFCfg) : Nat → TFLayout → Except Err TFLayout
+  | 0, L => pure L
+  | k + 1, L => do
+      let L' ← tfStep c L
+      tfSteps c k L'
+
+/-- constructor, `init` and `k` updates: what the harness observes -/
+def tfRun (c : TFCfg) (ps : List (List Nat)) (k : Nat) : Except Err TFLayout := do
+  let L ← tfInit c ps
+  tfSteps c k L
 
 def tfParamSig (c : TFCfg) : TFParam → Sig
   | .masked => .node "_GraftMask" [] []
@@ -782,7 +814,7 @@ def tfParamSig (c : TFCfg) : TFParam → Sig
 def emptyState : Sig := .node "EmptyState" [] []
 
 def tfSig (c : TFCfg) (L : TFLayout) : Sig :=
-  let ptreeLeaves := Sig.node "ptree" [] (L.shapes.map fun s => .leaf s "float32")
+  let ptreeLeaves := Sig.node "ptree" [] (L.inputs.map fun x => .leaf x.1 "float32")
   let precond := Sig.node (if c.sketchy then "_SketchyState" else "_ShampooState") []
     [.leaf [] "int32", .node "ptree" [] (L.params.map (tfParamSig c))]
   let direction := Sig.node "tuple" [] [masked, precond, masked]
